@@ -26,6 +26,7 @@ pub const EDIT_CLASSES: &[&str] = &[
     "field_option_toggle",
     "field_pub_toggle",
     "field_serde_rename",
+    "field_serde_rename_identity",
     "struct_rename_all",
     "field_serde_skip",
     "add_variant",
@@ -243,7 +244,7 @@ pub fn gen_edit(r: &mut Rng, class: &str, m: &Model) -> Option<(Model, String)> 
             }
         }
         "add_field" | "remove_field" | "rename_field" | "field_type" | "field_option_toggle" | "field_pub_toggle"
-        | "field_serde_rename" | "struct_rename_all" | "field_serde_skip" | "add_validator" | "change_validator" => {
+        | "field_serde_rename" | "field_serde_rename_identity" | "struct_rename_all" | "field_serde_skip" | "add_validator" | "change_validator" => {
             let names = serde_struct_names(m, true);
             let n = pick(r, &names)?;
             let s = m2.struct_mut(&n)?;
@@ -291,6 +292,16 @@ pub fn gen_edit(r: &mut Rng, class: &str, m: &Model) -> Option<(Model, String)> 
                         None => Some(format!("{}Renamed", r.pick(WORDS))),
                     };
                     desc = format!("#[serde(rename)] on {}.{}: {:?} -> {:?}", n, s.fields[k].name, s.fields[k].rename, new);
+                    s.fields[k].rename = new;
+                }
+                "field_serde_rename_identity" => {
+                    // rename to the identifier itself: a no-op for serde unless a rename_all (or a
+                    // non-default field case) would otherwise have transformed the name
+                    let new = match &s.fields[k].rename {
+                        Some(_) => None,
+                        None => Some(s.fields[k].name.clone()),
+                    };
+                    desc = format!("#[serde(rename = <the identifier itself>)] on {}.{}: {:?} -> {:?}", n, s.fields[k].name, s.fields[k].rename, new);
                     s.fields[k].rename = new;
                 }
                 "struct_rename_all" => {
